@@ -1,6 +1,7 @@
 import Sylvia.Driver.ProgParse
 import Sylvia.Model.EntryPoints
 import Sylvia.Model.Strip
+import Sylvia.Model.Dispatch
 /-! Driver operations over the current program. -/
 namespace Driver
 open Sylvia Gen
@@ -42,6 +43,100 @@ def opStrip (rest : String) : String :=
         ("name", .str m.rest), ("attrs", jsonStrList (m.attrs.map (·.text))),
         ("params", .arr (m.params.map fun p => Json.obj [("text", .str p.text), ("attrs", jsonStrList (p.attrs.map (·.text)))]))]))]).render
 
+def progOf (st : State) : Gen.Program := { contract := st.contract, ifaces := st.ifaces }
+
+/-- first n-1 blank-separated words, then the rest of the line -/
+def splitNGo : Nat → String → List String
+  | 0, _ => []
+  | 1, s => [s]
+  | n + 1, s => let (a, r) := splitOp s; a :: splitNGo n r
+
+def splitN (s : String) (n : Nat) : List String := splitNGo n s
+
+def opLists (st : State) (kind : String) : String :=
+  match kindOfWord kind with
+  | some k => "|".intercalate ((Gen.parts k (progOf st)).map fun p => ",".intercalate p.published)
+  | none => "bad-op"
+
+/-- message type of part `i` for kind `k` (struct kinds only exist on the contract part) -/
+def opDe (st : State) (rest : String) : String :=
+  match splitN rest 3 with
+  | [part, kind, json] =>
+    match kindOfWord kind, parseJsonPrefix json with
+    | some k, some (d, trailing) =>
+      if trailing then "err" else
+      let p := progOf st
+      let i := part.toNat?.getD 0
+      if k = .instantiate ∨ k = .migrate then
+        match Gen.variantsOf k p.contract.methods with
+        | m :: _ =>
+          match Serde.decodeStruct false (m.args.map Gen.fieldSpec) d with
+          | some fs => "ok " ++ (Json.obj fs).render
+          | none => "err"
+        | [] => "bad-op"
+      else
+        match (Gen.parts k p)[i]? with
+        | some ps =>
+          match Serde.decodeEnum false ps.variants d with
+          | some (v, fs) => "ok " ++ (Serde.encodeEnum ps.variants v fs).render
+          | none => "err"
+        | none => "bad-op"
+    | some _, none => "err"
+    | _, _ => "bad-op"
+  | _ => "bad-op"
+
+def opDew (st : State) (rest : String) : String :=
+  match splitN rest 2 with
+  | [kind, json] =>
+    match kindOfWord kind, parseJsonPrefix json with
+    | some k, some (d, trailing) =>
+      let ps := Gen.parts k (progOf st)
+      match Serde.wrapperDecode ps d with
+      | .ok i v fs => if trailing then "err" else "ok " ++ ((ps[i]?.map (·.label)).getD "?") ++ " " ++ (Serde.encodeEnum ((ps[i]?.map (·.variants)).getD []) v fs).render
+      | r => Dispatch.wrapErrText r
+    | some _, none => "err"
+    | _, _ => "bad-op"
+  | _ => "bad-op"
+
+def opDisp (st : State) (rest : String) : String :=
+  match splitN rest 7 with
+  | [kind, fail, sender, amount, height, seed, json] =>
+    match kindOfWord kind with
+    | some k =>
+      let p := progOf st
+      let c : Dispatch.CtxIn := { sender := sender, funds := amount, height := height, seed := seed, fail := fail }
+      match parseJsonPrefix json with
+      | some (d, trailing) =>
+        match Dispatch.route p k d c with
+        | .ran call m i => if trailing then "de-err" else Dispatch.showOutcome p (.ran call m i)
+        | o => Dispatch.showOutcome p o
+      | none => "de-err"
+    | none => "bad-op"
+  | _ => "bad-op"
+
+/-- `ser <part> <kind> <method> <args array>`: the value a constructor builds, printed -/
+def opSer (st : State) (rest : String) : String :=
+  match splitN rest 4 with
+  | [part, kind, method, json] =>
+    match kindOfWord kind, parseJson json with
+    | some k, some (.arr vals) =>
+      let p := progOf st
+      let i := part.toNat?.getD 0
+      let ms := if k = .instantiate ∨ k = .migrate then Gen.variantsOf k p.contract.methods
+                else ((Gen.partMethods k p)[i]?).getD []
+      match ms.find? (fun m => Casing.toString m.name == method) with
+      | some m =>
+        let specs := m.args.map Gen.fieldSpec
+        if specs.length != vals.length then "bad-args" else
+        match (specs.zip vals).mapM (fun (f, v) => (Serde.decodeVal false f.ty v).map fun v' => (f.name, v')) with
+        | some fs =>
+          if k = .instantiate ∨ k = .migrate then "ok " ++ (Json.obj fs).render ++ " true"
+          else "ok " ++ (Json.obj [(Gen.wireName m, .obj fs)]).render ++ " true"
+        | none => "bad-args"
+      | none => "bad-op"
+    | _, _ => "bad-op"
+  | _ => "bad-op"
+
 def step (st : State) (line : String) : State × Option String :=
   let (op, rest) := splitOp line
   match op with
@@ -56,6 +151,12 @@ def step (st : State) (line : String) : State × Option String :=
   | "reset" => ({}, some "ok")
   | "ep" => (st, some (opEp st))
   | "strip" => (st, some (opStrip rest))
+  | "lists" => (st, some (opLists st rest))
+  | "de" => (st, some (opDe st rest))
+  | "dew" => (st, some (opDew st rest))
+  | "disp" => (st, some (opDisp st rest))
+  | "entry" => (st, some (opDisp st rest))
+  | "ser" => (st, some (opSer st rest))
   | _ => (st, none)
 
 end Driver
